@@ -401,18 +401,30 @@ pub fn run(ctx: &Ctx) -> i32 {
     let (_sp, n) = space(ctx.tier);
     let mut acc = Acc::default();
     // probe the known reader-hang class in isolated children (3 s wall, 2 GiB address space)
-    let probes: [(&str, u8); 8] = [("%", 2), ("%a", 2), ("%YAML", 6), ("%TAG", 3), ("%FOO bar", 2), ("a\n...\n%a", 8), ("---\n%a", 6), ("#c\n%a", 2)];
-    let probe_results: Vec<(String, u8, bool)> = probes
+    let probes: [(&[u8], u8); 11] = [
+        (b"%", 2),
+        (b"%a", 2),
+        (b"%YAML", 6),
+        (b"%TAG", 3),
+        (b"%FOO bar", 2),
+        (b"a\n...\n%a", 8),
+        (b"---\n%a", 6),
+        (b"#c\n%a", 2),
+        (b"%\xc3\n", 2),
+        (b"%a\xff\n", 6),
+        (b"\xef\xbb\xbf%TAG ! tag:", 3),
+    ];
+    let probe_results: Vec<(String, u8, bool, String)> = probes
         .par_iter()
         .map(|(text, entry)| {
-            let hex: String = text.bytes().map(|b| format!("{:02x}", b)).collect();
-            let args = vec!["C01".to_string(), "child-one".to_string(), hex, "2".to_string(), entry.to_string(), "0".to_string()];
+            let hex: String = text.iter().map(|b| format!("{:02x}", b)).collect();
+            let args = vec!["C01".to_string(), "child-one".to_string(), hex.clone(), "2".to_string(), entry.to_string(), "0".to_string()];
             let (code, _out, timed_out) = run_child(&args, Duration::from_secs(3));
-            (text.to_string(), *entry, timed_out || code != Some(0))
+            (String::from_utf8_lossy(text).into_owned(), *entry, timed_out || code != Some(0), hex)
         })
         .collect();
     let mut any_hang = false;
-    for (text, entry, bad) in &probe_results {
+    for (text, entry, bad, hex) in &probe_results {
         acc.evaluations += 1;
         acc.execs += 1;
         acc.nontrivial += 1;
@@ -421,14 +433,14 @@ pub fn run(ctx: &Ctx) -> i32 {
             acc.add_violation(
                 format!("hang|{:?}|{}", text, ENTRIES[*entry as usize]),
                 "hang",
-                format!("{:?} via {}: the call does not return (killed after 3 s / ran out of its 2 GiB address space): a %directive whose last word runs into the end of reader input", text, ENTRIES[*entry as usize]),
-                json!({"text": text, "entry": entry}),
+                format!("{:?} via {}: the call does not return (killed after 3 s / ran out of its 2 GiB address space): a %directive line that runs into the end (EOF or decoding error) of reader input", text, ENTRIES[*entry as usize]),
+                json!({"text": text, "hex": hex, "entry": entry}),
                 json!({}),
             );
         }
     }
     SKIP_READER_HANG_CLASS.store(any_hang, std::sync::atomic::Ordering::Relaxed);
-    acc.notes.insert("reader_hang_class_probes".into(), json!({"probes": probe_results.iter().map(|(t, e, b)| json!({"input": t, "entry": ENTRIES[*e as usize], "hangs": b})).collect::<Vec<_>>(), "class_skipped_for_reader_entries": any_hang}));
+    acc.notes.insert("reader_hang_class_probes".into(), json!({"probes": probe_results.iter().map(|(t, e, b, _)| json!({"input": t, "entry": ENTRIES[*e as usize], "hangs": b})).collect::<Vec<_>>(), "class_skipped_for_reader_entries": any_hang}));
     let limit = Duration::from_secs(ctx.tier.pick(600, 7200));
     if let Err(e) = prod_range(ctx.tier, 0, n, limit, &mut acc, 0) {
         eprintln!("MACHINERY: {}", e);
@@ -506,7 +518,10 @@ pub fn replay_file(ctx: &Ctx, path: &str) -> i32 {
     if let Ok(text) = std::fs::read_to_string(path) {
         if let Ok(v) = serde_json::from_str::<serde_json::Value>(&text) {
             if let (Some(text), Some(entry)) = (v["case"]["text"].as_str(), v["case"]["entry"].as_u64()) {
-                let hex: String = text.bytes().map(|b| format!("{:02x}", b)).collect();
+                let hex: String = match v["case"]["hex"].as_str() {
+                    Some(h) => h.to_string(),
+                    None => text.bytes().map(|b| format!("{:02x}", b)).collect(),
+                };
                 let args = vec!["C01".to_string(), "child-one".to_string(), hex, "2".to_string(), entry.to_string(), "0".to_string()];
                 let a = run_child(&args, Duration::from_secs(3));
                 let b = run_child(&args, Duration::from_secs(3));
